@@ -64,8 +64,8 @@ Definition read_Z (bs : bytes) : Z :=
 
 Fixpoint split_on_aux (sep : byte) (bs cur : bytes) : list bytes :=
   match bs with
-  | [] => [rev cur]
-  | b :: r => if byte_eqb b sep then rev cur :: split_on_aux sep r [] else split_on_aux sep r (b :: cur)
+  | [] => [rev_append cur []]
+  | b :: r => if byte_eqb b sep then rev_append cur [] :: split_on_aux sep r [] else split_on_aux sep r (b :: cur)
   end.
 Definition split_on (sep : byte) (bs : bytes) : list bytes :=
   match bs with [] => [] | _ => split_on_aux sep bs [] end.
